@@ -807,8 +807,8 @@ theorem decodeLeaf_typed (fl : Flavour) (hp : fl.prim = parsePrim) (c : Cell) (n
     · exact pathObj_typed _ _ _ _ _ _ _ hnd
     · split
       · split
-        · exact queryDeepFlat_typed name r sprops rq hnd
-        · exact queryDeepFlatA_typed _ name r sprops rq _ hnd
+        · exact queryDeepFlat_typed name _ sprops rq hnd
+        · exact queryDeepFlatA_typed _ name _ sprops rq _ hnd
       · exact queryObj_typed _ _ name st ex r sprops rq addl hnd
     · exact headerObj_typed _ _ _ _ _ _ hnd
     · exact cookieObj_typed _ _ _ _ _ _ _ hnd
@@ -817,7 +817,7 @@ theorem decodeLeaf_typed (fl : Flavour) (hp : fl.prim = parsePrim) (c : Cell) (n
       fun _ v _ h => typed_deep_other sprops rq v h
     cases loc <;> cases st <;> simp only [decodeLeaf, hp]
     all_goals first
-      | exact queryDeep_typed name r sprops rq
+      | exact queryDeep_typed name _ sprops rq
       | exact typed_nilObj _
       | (apply typed_deep_other; intro kvs; unfold pathObj; repeat' split
          all_goals first | exact objOut_not_dobj _ _ _ _ _ _ _ _ | simp [badMethodObj, absentObj])
@@ -1069,5 +1069,46 @@ theorem lookupLast_none_of_not_mem (k : Str) : ∀ (props : List (Str × Str)), 
     have h1 : k' ≠ k := by intro e; apply h; simp [e]
     have h2 : k ∉ rest.map Prod.fst := by intro e; apply h; simp at e ⊢; exact Or.inr e
     simp [lookupLast, lookupLast_none_of_not_mem k rest h2, h1]
+
+/-! ### a text with a non-digit inside is not an integer -/
+
+theorem readNatAux_none_of_nondigit (c : Char) (hd : digitVal c = none) : ∀ (s : Str) (acc : Nat), c ∈ s → readNatAux s acc = none
+  | [], _, h => by simp at h
+  | x :: rest, acc, h => by
+    simp only [readNatAux]
+    cases hx : digitVal x with
+    | none => rfl
+    | some d =>
+      simp only
+      rcases List.mem_cons.mp h with e | h
+      · subst e; rw [hd] at hx; cases hx
+      · exact readNatAux_none_of_nondigit c hd rest _ h
+
+theorem readNat_none_of_nondigit (c : Char) (hd : digitVal c = none) (s : Str) (h : c ∈ s) : readNat s = none := by
+  cases s with
+  | nil => rfl
+  | cons x rest => exact readNatAux_none_of_nondigit c hd (x :: rest) 0 h
+
+/-- a text that contains a comma is no integer of any width (strconv.ParseInt: invalid syntax) -/
+theorem parseInt10_none_of_comma (bits : Nat) (s : Str) (h : ',' ∈ s) : parseInt10 bits s = none := by
+  have hd : digitVal ',' = none := by decide
+  rw [parseInt10_eq_readDecInt]
+  cases s with
+  | nil => simp at h
+  | cons c r =>
+    by_cases h1 : c = '+'
+    · subst h1
+      have hr : ',' ∈ r := by simpa using h
+      simp [readDecInt, readNat_none_of_nondigit ',' hd r hr]
+    · by_cases h2 : c = '-'
+      · subst h2
+        have hr : ',' ∈ r := by simpa using h
+        simp [readDecInt, readNat_none_of_nondigit ',' hd r hr]
+      · rw [readDecInt_unsigned bits c r h1 h2, readNat_none_of_nondigit ',' hd (c :: r) h]
+
+theorem mem_joinL_sep (d : Char) : ∀ (xs : List Str), 2 ≤ xs.length → d ∈ joinL [d] xs
+  | [], h => by simp at h
+  | [_], h => by simp at h
+  | x :: y :: rest, _ => by simp [joinL]
 
 end KinModel.Style
